@@ -87,6 +87,7 @@ ObsOf(S, a, site, inp, E) ==
       op |-> IF site = "C_Idle" THEN inp.op ELSE L.op,
       ret |-> E.ret,
       truth |-> <<>>,
+      sync |-> TRUE,
       ev |-> evRecv \o evVic \o evSend]
 
 Digest(vs) == {[prop |-> vs[i].prop, kind |-> vs[i].kind, finding |-> vs[i].finding, what |-> vs[i].what] : i \in DOMAIN vs}
@@ -110,7 +111,7 @@ Step(a) ==
 Advance ==
   /\ st.now < CfgRec.clock0 + Horizon
   /\ LET S2 == EffAdvance(st, 1)
-         o == [next |-> "E_Advance", narg |-> 0, op |-> NoOp, ret |-> NoRet, ev |-> <<>>, truth |-> <<>>]
+         o == [next |-> "E_Advance", narg |-> 0, op |-> NoOp, ret |-> NoRet, ev |-> <<>>, truth |-> <<>>, sync |-> TRUE]
          G2 == GhostNext(gh, st, "env", "E_Advance", NoInp, S2, o)
      IN /\ st' = S2
         /\ gh' = G2
@@ -141,5 +142,13 @@ Terminated == /\ \A c \in Callers : ~HasMore(c) /\ st.pc[c] = "C_Idle"
               /\ st.queue = <<>>
 
 FixOff == FALSE
+\* reachability of the recorded defects in the model (each is expected to be VIOLATED: the model reproduces the defect)
+NotD2 == ~\E v \in bad : v.finding = "D2"
+NotD4 == ~\E v \in bad : v.finding = "D4"
+NotD5 == ~\E v \in bad : v.finding = "D5"
+NotD11 == ~\E v \in bad : v.finding = "D11"
+NotD12 == ~\E v \in bad : v.finding = "D12"
+NotD13 == ~\E v \in bad : v.finding = "D13"
+NotD14 == ~\E v \in bad : v.finding = "D14"
 \* hide nothing: the ghosts are part of the state
 =============================================================================
